@@ -300,6 +300,10 @@ func (parameter *Parameter) SerializationMethod() (*SerializationMethod, error) 
 			style = SerializationForm
 		}
 		explode := true
+		if style == SerializationSpaceDelimited || style == SerializationPipeDelimited {
+			// explode defaults to true for the form style only
+			explode = false
+		}
 		if parameter.Explode != nil {
 			explode = *parameter.Explode
 		}
